@@ -20,6 +20,9 @@ type layoutOpts struct {
 	// AllowMultiPage permits archives of 400-3000 points (12-byte slots straddle 4 KiB pages).
 	AllowMultiPage bool
 	MaxRatio       int64
+	// HugePct: percentage of layouts whose finest archive gets 2800-6500 slots (runs longer than any
+	// plausible bulk-read buffer)
+	HugePct int
 }
 
 func defaultLayoutOpts() layoutOpts {
@@ -78,6 +81,14 @@ func genLayout(t *rapid.T, o layoutOpts) Layout {
 			}
 		}
 		pts[i] = p
+	}
+	if o.HugePct > 0 && rapid.IntRange(0, 99).Draw(t, "huge") < o.HugePct {
+		pts[0] += rapid.Int64Range(2800, 6500).Draw(t, "hugeExtra")
+		for i := 1; i < k; i++ {
+			if need := floorDiv(pts[i-1]*steps[i-1], steps[i]) + 1; pts[i] < need {
+				pts[i] = need
+			}
+		}
 	}
 	l := Layout{Method: rapid.IntRange(1, 6).Draw(t, "method")}
 	for i := 0; i < k; i++ {
